@@ -177,7 +177,7 @@ REGISTRY = {
         'kani_quick': ['k_stat_king_r0_r1_definition', 'k_stat_s_sum_pixy_definition', 'k_stat_theta_pi_definition', 'k_cli_statistic_dispatch_1d'],
         'kani_thorough': ['k_stat_f2_fst_definition', 'k_stat_f3_definition', 'k_stat_f4_definition', 'k_cli_statistic_dispatch_d', 'k_cli_statistic_dispatch_2d_counts',
                           'k_cli_statistic_dispatch_2d_normalised', 'k_cli_statistic_dispatch_3d', 'k_cli_statistic_dispatch_4d'],
-        'assumptions': [A_PMF, A_FLOATSUM, A_BIN, 'f64::powi(x, 2) = x * x (stub in the f2/Fst/f3 harnesses: CBMC\'s powi model is not exact)'],
+        'assumptions': [A_PMF, A_FLOATSUM, A_BIN, 'f64::powi(x, 2) = x * x (stub in the f2/Fst/f3 harnesses: CBMC\'s powi model is not exact)', 'f64::sqrt is replaced by the identity on both sides of k_cli_statistic_dispatch_d, which therefore checks the wiring of the D statistics only'],
         'not_decided': ['f2, f3, f4, Fst, Watterson, pi beyond one concrete table per harness (symbolic f64 cells do not finish; BOUNDED stand-ins with tolerance 1e-9 only)', 'Tajima D, Fu-Li D (sqrt, binomial through exp/ln): only totality (C17) and independence of the monomorphic cells (C14)', 'genotype-level reading of all 14 (composition with create)', 'Stat::run / stat Runner (precision pairing, printing): bin crate I/O; only Statistic::calculate is under harness'],
     },
     'C07': {
